@@ -2,6 +2,7 @@ import SC.Proofs.SpecIndex
 import SC.Proofs.IdxRune2
 import SC.Proofs.SpecFirstBy
 import SC.Proofs.RLastIndexByte
+import SC.Proofs.RByteLevel
 /-!
 # C10 — single-character searches find the first/last member of the character's orbit
 -/
@@ -78,6 +79,64 @@ theorem lastIndexByte_last (cfg : A.Cfg) (s : Bytes) (c : UInt8) (hc : c < 0x80)
 theorem lastIndexRune_last (cfg : A.Cfg) (s : Bytes) (u : Nat) (hv : validRune u) (h80 : 0x80 ≤ u) :
     A.IsLastBy (fun x => Fold.caseFold x == Fold.caseFold u) s (A.lastIndexRune cfg s (u : Int)) :=
   A.lastIndexRune_isLastBy cfg s u hv h80
+
+/-- the byte-level specification, stated as in the property: `S.indexByte s c` is the least offset at which byte `c`
+    occurs, or (for an ASCII letter) its other case, or (for K k S s) the encoded U+212A resp. U+017F starts; −1 if none -/
+theorem indexByte_least (s : Bytes) (c : UInt8) :
+    (S.indexByte s c = -1 ∧ ∀ i, i < s.length → S.byteMatch true c (s.drop i) = false) ∨
+    (∃ n : Nat, S.indexByte s c = (n : Int) ∧ n < s.length ∧ S.byteMatch true c (s.drop n) = true ∧
+        ∀ i, i < n → S.byteMatch true c (s.drop i) = false) := by
+  rcases A.firstAt_spec (S.byteMatch true c) s 0 with h | ⟨n, h1, h2⟩
+  · exact Or.inl h
+  · exact Or.inr ⟨n, by rw [S.indexByte, h1, Nat.zero_add], h2⟩
+theorem lastIndexByte_greatest (s : Bytes) (c : UInt8) :
+    (S.lastIndexByte s c = -1 ∧ ∀ i, i < s.length → S.byteMatch true c (s.drop i) = false) ∨
+    (∃ n : Nat, S.lastIndexByte s c = (n : Int) ∧ n < s.length ∧ S.byteMatch true c (s.drop n) = true ∧
+        ∀ i, n < i → i < s.length → S.byteMatch true c (s.drop i) = false) := by
+  rcases A.lastAt_spec_gen (S.byteMatch true c) s 0 with h | ⟨n, h1, h2⟩
+  · exact Or.inl h
+  · exact Or.inr ⟨n, by rw [S.lastIndexByte, h1, Nat.zero_add], h2⟩
+
+/-- the match predicate of the property statement, spelled out -/
+theorem byteMatch_meaning (c b : UInt8) (rest : Bytes) :
+    S.byteMatch true c (b :: rest) = true ↔
+      b = c ∨ (S.isAlpha c = true ∧ (b ||| 0x20) = (c ||| 0x20)) ∨
+      ((c = 0x4B ∨ c = 0x6B) ∧ [0xE2, 0x84, 0xAA] <+: b :: rest) ∨ ((c = 0x53 ∨ c = 0x73) ∧ [0xC5, 0xBF] <+: b :: rest) := by
+  unfold S.byteMatch S.byteEqFold S.relative S.headIs
+  by_cases hk : c = 0x4B ∨ c = 0x6B
+  · have : (c == 0x4B || c == 0x6B) = true := by rcases hk with h | h <;> subst h <;> rfl
+    have hs : ¬ (c = 0x53 ∨ c = 0x73) := by rcases hk with h | h <;> subst h <;> decide
+    simp only [this, if_true, hk, hs, true_and, false_and, or_false]
+    simp [List.isPrefixOf_iff_prefix, or_assoc]
+  · have hk' : (c == 0x4B || c == 0x6B) = false := by
+      cases h : (c == 0x4B || c == 0x6B) with
+      | false => rfl
+      | true => simp at h; exact absurd h hk
+    by_cases hs : c = 0x53 ∨ c = 0x73
+    · have : (c == 0x53 || c == 0x73) = true := by rcases hs with h | h <;> subst h <;> rfl
+      simp only [hk', this, if_true, hk, hs, true_and, false_and, false_or]
+      simp [List.isPrefixOf_iff_prefix, or_assoc]
+    · have hs' : (c == 0x53 || c == 0x73) = false := by
+        cases h : (c == 0x53 || c == 0x73) with
+        | false => rfl
+        | true => simp at h; exact absurd h hs
+      simp [hk', hs', hk, hs]
+
+/-- refinement: `IndexByte`, `LastIndexByte`, `IndexByteASCII` equal the byte-level specification for all 256 byte
+    values (ASCII letters, K/k/S/s with their non-ASCII relatives, other ASCII, bytes ≥ 0x80), every byte string -/
+theorem indexByte_refines (cfg : A.Cfg) (s : Bytes) (c : UInt8) : A.IndexByte cfg s c = S.indexByte s c := A.IndexByte_eq cfg s c
+theorem lastIndexByte_refines (cfg : A.Cfg) (s : Bytes) (c : UInt8) : A.LastIndexByte cfg s c = S.lastIndexByte s c :=
+  A.LastIndexByte_eq cfg s c
+theorem indexByteASCII_refines (cfg : A.Cfg) (s : Bytes) (c : UInt8) : A.IndexByteASCII cfg s c = S.indexByteASCII s c :=
+  A.IndexByteASCII_eq cfg s c
+
+/-- the byte-level and the orbit-level readings agree: for an ASCII byte, `IndexByte` is the first code point of `s`
+    in the byte's simple-folding orbit -/
+theorem indexByte_is_orbit_search (cfg : A.Cfg) (s : Bytes) (c : UInt8) (hc : c < 0x80) :
+    ∃ w, A.IsFirstBy (fun x => Fold.caseFold x == Fold.caseFold c.toNat) s (S.indexByte s c, w) := by
+  obtain ⟨w, h⟩ := A.IndexByte_firstBy cfg s c hc
+  rw [A.IndexByte_eq] at h
+  exact ⟨w, h⟩
 
 example : S.indexRune [0x78, 0xE2, 0x84, 0xAA] 0x6B = 1 ∧ S.indexRune [0x78, 0xFF] 0xFFFD = 1 ∧
     S.indexByte [0x78, 0xC5, 0xBF] 0x53 = 1 ∧ S.lastIndexByte [0x6B, 0xE2, 0x84, 0xAA, 0x78] 0x4B = 1 ∧
